@@ -51,6 +51,17 @@ def run(ctx):
     ctx.min_instances('C08.R5', 6)
     r6(ctx)
     ctx.min_instances('C08.R6', 1)
+    from . import _ductftf
+    _ductftf.check(
+        ctx, 'C08.R7', 'region_rodded', 'RoddedRegion.__init__', 'duct_ftf',
+        lambda n, V: {'self.duct_ftf': [[V[2 * i], V[2 * i + 1]]
+                                        for i in range(n)]})
+    ctx.min_instances('C08.R7', 3)
+    ctx.decided.append(
+        'R7 the constructor turns the 2 n_duct flat-to-flat distances into '
+        'ascending (inner, outer) pairs, innermost duct first, for every '
+        'order of the input (finite-domain evaluation over all permutations '
+        'for 1-3 ducts)')
     ctx.min_instances('C08.R1', 8)
     ctx.min_instances('C08.R2', 2)
     ctx.min_instances('C08.R3', 7)
